@@ -225,6 +225,8 @@ func runC11(p *load.Program, r *oblig.Report) {
 	c.ruleR5()
 	c.ruleR6()
 	c.ruleR7()
+	c17StaleSize(p, r, "C11.R8 drains start from an exact remaining size")
+	c.ruleR9("C11.R9 a response-level error code is reported to the caller")
 }
 
 // ruleR1: broker errors raised mid-frame are followed by a drain.
@@ -368,6 +370,60 @@ func (c *c11ctx) ruleR2() {
 			}
 		})
 		r.Check(ok, rule, "kafka."+name+" closes the connection when the error is not a kafka.Error", p.Pos(fn.Pos()), "conn.Close() on the !errors.As(err, &kafkaError) edge", "not found")
+		// and on every path from that edge: no further condition (a time-out, a "temporary" error) spares the
+		// connection, whose stream is at an unknown position after a failed read; Batch.close alone may keep it for
+		// io.ErrShortBuffer (the caller's buffer was too small, the message itself was consumed)
+		isErrorsCall := func(v ssa.Value, fname string) *ssa.Call {
+			if u, isU := v.(*ssa.UnOp); isU && u.Op == token.NOT {
+				v = an.ThroughNew(u.X)
+			}
+			call, isCall := v.(*ssa.Call)
+			if !isCall {
+				return nil
+			}
+			if f := call.Call.StaticCallee(); f != nil && f.Pkg != nil && f.Pkg.Pkg.Path() == "errors" && an.RefFuncName(f) == fname {
+				return call
+			}
+			return nil
+		}
+		falseEdge := func(b *ssa.BasicBlock) int {
+			iff, _ := an.IfCond(b)
+			if _, neg := an.CondOf(iff).(*ssa.UnOp); neg {
+				return 0
+			}
+			return 1
+		}
+		edge := func(from *ssa.BasicBlock, si int) bool {
+			if !allowShortBuffer {
+				return true
+			}
+			iff, _ := an.IfCond(from)
+			if iff == nil {
+				return true
+			}
+			if is := isErrorsCall(an.CondOf(iff), "Is"); is != nil && strings.HasSuffix(clean(an.Shape(is.Call.Args[1])), "ErrShortBuffer") {
+				return si == falseEdge(from)
+			}
+			return true
+		}
+		nAs := 0
+		for _, b := range an.Blocks(fn) {
+			iff, _ := an.IfCond(b)
+			if iff == nil || isErrorsCall(an.CondOf(iff), "As") == nil {
+				continue
+			}
+			nAs++
+			okAll, bad := an.MustPass(fn, an.Point{B: b.Succs[falseEdge(b)], Idx: -1}, func(i ssa.Instruction) bool {
+				call, isC := i.(*ssa.Call)
+				return isC && isConnClose(&call.Call)
+			}, edge)
+			where := ""
+			if bad != nil {
+				where = "a path from the not-a-kafka.Error edge reaches " + p.Pos(bad.Pos()) + " without closing the connection"
+			}
+			r.Check(okAll, rule, "kafka."+name+" closes the connection for every error that is not a kafka.Error", p.Pos(b.Instrs[len(b.Instrs)-1].Pos()), "no further condition between !errors.As(err, &kafkaError) and conn.Close()", where)
+		}
+		r.RequireCount(rule+" (errors.As tests in "+name+")", nAs, 1)
 	}
 	closeOnNonKafka("(*Conn).do", false)
 	closeOnNonKafka("(*Batch).close", true)
@@ -704,7 +760,8 @@ func (c *c11ctx) batchCloseDrains(rule string) {
 			for d, child := dn.Block().Idom(), dn.Block(); d != nil; d, child = d.Idom(), d {
 				_, ci := an.IfCond(d)
 				e := ci.Edge(token.EQL)
-				if e < 0 || !an.IsNilConst(ci.Y) || !strings.HasSuffix(clean(an.Shape(ci.X)), ".parent") {
+				// the reader rewound is the one discardN works on: the message set reader's own stack entry, not a copy
+				if e < 0 || !an.IsNilConst(ci.Y) || clean(an.Shape(ci.X)) != an.ParamName(dis.Params[0])+".readerStack.parent" {
 					continue
 				}
 				if !edgeControls(d, e, child) {
@@ -714,7 +771,7 @@ func (c *c11ctx) batchCloseDrains(rule string) {
 				q := an.PathQuery{Fn: dis, Target: func(i ssa.Instruction) bool { return i.Block() == d && i == d.Instrs[0] }}
 				okRewind = q.ReachableFrom(an.Point{B: d.Succs[1-e], Idx: -1}) != nil
 			}
-			okAll = strings.HasSuffix(clean(an.Shape(dn.Call.Args[len(dn.Call.Args)-1])), ".remain")
+			okAll = clean(an.Shape(dn.Call.Args[len(dn.Call.Args)-1])) == an.ParamName(dis.Params[0])+".readerStack.remain" && dn.Call.Args[0] == ssa.Value(dis.Params[0])
 		}
 		r.Check(dn != nil && okRewind && okAll, rule, "kafka.(*messageSetReader).discard rewinds to the outermost reader and discards all that remains there", p.Pos(dis.Pos()),
 			"for r.parent != nil { r.readerStack = r.parent }; r.discardN(r.remain)", fmt.Sprintf("rewindLoopBeforeDrain=%v drainsRemain=%v", okRewind, okAll))
@@ -832,4 +889,84 @@ func (c *c11ctx) ruleR7() {
 	r.Check(len(bad) == 0 && n > 0, rule, "kafka.(*Conn).ReadBatchWith: every Batch built after waitResponse succeeded", p.Pos(fn.Pos()),
 		"Batch{conn: c, lock: <lock returned by waitResponse>} (or the connection is closed first)", strings.Join(bad, "; "))
 	r.RequireCount(rule, n, 1)
+}
+
+// ruleR9: a Conn operation whose response carries its own ErrorCode reports that code: on the path where the round
+// trip itself succeeded, every exit of the function passes a test of that ErrorCode (the broker's answer to
+// heartbeat, join, sync, leave, find-coordinator, … is an error code, not a transport error).
+func (c *c11ctx) ruleR9(rule string) {
+	p, r := c.p, c.r
+	root := p.SSAPkg("")
+	n := 0
+	for _, fn := range p.ModuleFunctions() {
+		if fn.Parent() != nil || fn.Pkg != root || fn.Signature.Recv() == nil || !an.NamedIs(fn.Signature.Recv().Type(), load.ModPath, "Conn") {
+			continue
+		}
+		if c.inReaderContext(fn) {
+			continue
+		}
+		var op *ssa.Call
+		an.EachInstr(fn, func(ins ssa.Instruction) {
+			if call, ok := ins.(*ssa.Call); ok && call.Parent() == fn {
+				if sc := call.Call.StaticCallee(); sc != nil && (an.RefFuncName(sc) == "readOperation" || an.RefFuncName(sc) == "writeOperation" || an.RefFuncName(sc) == "do") {
+					op = call
+				}
+			}
+		})
+		if op == nil {
+			continue
+		}
+		// loads of <local response>.ErrorCode in the function itself
+		codeLoads := map[ssa.Value]bool{}
+		an.EachInstr(fn, func(ins ssa.Instruction) {
+			ld, ok := ins.(*ssa.UnOp)
+			if !ok || ld.Op != token.MUL || ld.Parent() != fn {
+				return
+			}
+			fa, ok := ld.X.(*ssa.FieldAddr)
+			if !ok || an.FieldName(fa.X.Type(), fa.Field) != "ErrorCode" {
+				return
+			}
+			// the response the operation's read callback fills in (captured by that closure), not a per-element copy
+			if al, local := fa.X.(*ssa.Alloc); local {
+				for _, ref := range *al.Referrers() {
+					if mc, isMC := ref.(*ssa.MakeClosure); isMC {
+						for _, b := range mc.Bindings {
+							if b == ssa.Value(al) {
+								codeLoads[ld] = true
+							}
+						}
+					}
+				}
+			}
+		})
+		if len(codeLoads) == 0 {
+			continue
+		}
+		n++
+		isCodeTest := func(i ssa.Instruction) bool {
+			iff, ok := i.(*ssa.If)
+			if !ok {
+				return false
+			}
+			_, ci := an.IfCond(iff.Block())
+			return ci != nil && (codeLoads[ci.X] || codeLoads[ci.Y])
+		}
+		// only the paths on which the operation returned no error
+		edge := func(from *ssa.BasicBlock, si int) bool {
+			_, ci := an.IfCond(from)
+			if e := ci.Edge(token.EQL); e >= 0 && an.IsNilConst(ci.Y) && an.Unwrap(ci.X) == ssa.Value(op) {
+				return si == e
+			}
+			return true
+		}
+		ok, bad := an.MustPass(fn, an.PointOf(op), isCodeTest, edge)
+		where := ""
+		if bad != nil {
+			where = "the exit at " + p.Pos(bad.Pos()) + " is reachable after a successful round trip without looking at the response's ErrorCode"
+		}
+		r.Check(ok, rule, an.ShortFunc(fn)+" → the ErrorCode of the response is examined whenever the round trip succeeded", p.Pos(op.Pos()),
+			"if response.ErrorCode != 0 { return …, Error(response.ErrorCode) } on the err == nil path", where)
+	}
+	r.RequireCount(rule, n, 5)
 }
